@@ -415,7 +415,10 @@ def make_program(rnd, features, threads=False):
         m.append('    P.snap()')
     lines += m + ['']
     files.insert(0, (main_file, '\n'.join(lines) + '\n'))
-    return dict(files=files, names=names, kinds=kinds, twin_of=twin_of, threads=threads, features=sorted(features))
+    out = dict(files=files, names=names, kinds=kinds, twin_of=twin_of, threads=threads, features=sorted(features))
+    if threads and 'baton' in features:
+        out['sched'] = rnd.randrange(1 << 30)
+    return out
 
 
 FEATURE_SETS = [
